@@ -111,6 +111,21 @@ def impl(case):
             trees.append(r)
             return r
         cls.build_tree_handling_errors = spy
+        # ... and the two trees main() actually hands to the comparison (it may wrap or copy what the loaders returned)
+        import graphtage.tree as gt
+        compared = []
+        orig_diff, orig_gae = gt.TreeNode.diff, gt.TreeNode.get_all_edit_contexts
+
+        def spy_diff(self, node):
+            if not compared:
+                compared.append((self, node))
+            return orig_diff(self, node)
+
+        def spy_gae(self, node):
+            if not compared:
+                compared.append((self, node))
+            return orig_gae(self, node)
+        gt.TreeNode.diff, gt.TreeNode.get_all_edit_contexts = spy_diff, spy_gae
         try:
             with open(os.path.join(d, "a.json"), "w") as fh:
                 json.dump(f, fh)
@@ -119,10 +134,11 @@ def impl(case):
             r = clirun.run_main(["--no-status", "--no-color"] + case["argv"] + ["a.json", "b.json"], d)
         finally:
             cls.build_tree_handling_errors = orig
+            gt.TreeNode.diff, gt.TreeNode.get_all_edit_contexts = orig_diff, orig_gae
             shutil.rmtree(d, ignore_errors=True)
         if r["exc"] or len(trees) != 2 or isinstance(trees[0], str) or isinstance(trees[1], str):
             return {"error": "cli", "exc": r["exc"] or "load", "msg": (r["msg"] or r["err"])[:200]}
-        A, B = trees
+        A, B = compared[0] if compared else trees
         # fresh comparison of the very trees main() built (main's own edit objects are gone)
         A, B = A.copy() if False else A, B
     else:
